@@ -1166,7 +1166,20 @@ pub fn enumerate_faults(base: &[u32]) -> Vec<Vec<u32>> {
                 }
             }
         };
-        for p in 0..positions {
+        // every position for outputs up to 1.5 KB (the enumeration the check is named after); for the rare
+        // page-spanning strings the first and last 400 positions and an even spread of 700 in between, so that
+        // neither time nor memory grows with the square of the output length
+        let all: Vec<usize> = if positions <= 1500 {
+            (0..positions).collect()
+        } else {
+            let mut v: Vec<usize> = (0..400).collect();
+            let mid = positions - 800;
+            v.extend((0..700).map(|k| 400 + k * mid / 700));
+            v.extend(positions - 400..positions);
+            v.dedup();
+            v
+        };
+        for p in all {
             let mut c = base.to_vec();
             c[0] = kind;
             c[1] = p as u32;
